@@ -564,3 +564,57 @@ func checkOnlyEOFEndsListing(c *Ctx, rule string) {
 	}
 	c.floor(rule, 1)
 }
+
+// checkClosedLatchReadOnlyByTheConnection (C04.R18): the connection's `closed` latch is received from only by methods
+// of clientConn (Wait, and the guard in front of the in-flight table).  A transfer or a Close that peeks at the latch to
+// skip its request leaves the protocol it is part of: a slicer that stops silently never produces the error chunk its
+// reducer waits for, a Close that returns nil reports success for data that never arrived.  Every call after the loss
+// has to go through the request path, which fails it.
+func checkClosedLatchReadOnlyByTheConnection(c *Ctx, rule string) {
+	p := c.P
+	n := 0
+	isLatch := func(v ssa.Value) bool {
+		u, ok := v.(*ssa.UnOp)
+		if !ok {
+			return false
+		}
+		t, name, _, ok := fieldOf(u.X)
+		if !ok || typeName(t) != "clientConn" {
+			return false
+		}
+		_, isChan := u.Type().Underlying().(*types.Chan)
+		return isChan && name != "" && (name == "closed" || u.Type().Underlying().(*types.Chan).Elem().String() == "struct{}")
+	}
+	for _, fn := range p.LibFuncs() {
+		if outermost(fn).Package() != p.Sftp {
+			continue
+		}
+		eachInstr(fn, func(in ssa.Instruction) {
+			var chans []ssa.Value
+			switch x := in.(type) {
+			case *ssa.UnOp:
+				if x.Op.String() == "<-" {
+					chans = append(chans, x.X)
+				}
+			case *ssa.Select:
+				for _, st := range x.States {
+					if st.Dir == types.RecvOnly {
+						chans = append(chans, st.Chan)
+					}
+				}
+			}
+			for _, ch := range chans {
+				if !isLatch(ch) {
+					continue
+				}
+				n++
+				o := outermost(fn)
+				own := o.Signature.Recv() != nil && typeName(o.Signature.Recv().Type()) == "clientConn"
+				c.check(own, rule, "receive from the connection's closed latch in "+fnName(fn), p.Pos(in.Pos()),
+					"inside a method of clientConn",
+					"the connection's closed latch is read outside clientConn: a call that skips its request because the connection is gone neither fails nor completes the protocol it is part of (a waiting reducer hangs, a Close reports success)")
+			}
+		})
+	}
+	c.floor(rule, 2)
+}
